@@ -134,7 +134,7 @@ EXPORT errno_t _wctomb_s_chk(int *restrict retvalp, char *restrict dest,
     if (dest) {
         CHK_DMAX_ZERO("wctomb_s")
         if (destbos == BOS_UNKNOWN) {
-            CHK_DMAX_MAX("wctomb_s", RSIZE_MAX_WSTR)
+            CHK_DMAX_MAX("wctomb_s", RSIZE_MAX_STR)
             BND_CHK_PTR_BOUNDS(dest, dmax);
         } else {
             CHK_DEST_OVR("wctomb_s", destbos)
